@@ -30,7 +30,7 @@ pub fn enum_sizes(tier: Tier) -> &'static [usize] {
 /// Number of placed-fault kinds per link (see `placed_fault`).
 pub fn placed_kinds(kind: LinkKind) -> u32 {
     match kind {
-        LinkKind::Serial => 5,
+        LinkKind::Serial => 6,
         LinkKind::Usart => 1,
         LinkKind::Can => 2,
     }
@@ -42,7 +42,8 @@ fn placed_fault(kind: LinkKind, fk: u32, arg: u32) -> TxFault {
         (LinkKind::Serial, 1) => TxFault::Short(1 + arg),
         (LinkKind::Serial, 2) => TxFault::Interrupted,
         (LinkKind::Serial, 3) => TxFault::FlushError((arg % 3) as u8),
-        (LinkKind::Serial, _) => TxFault::FlushInterrupted(FLUSH_INTR_RUNS[(arg % 5) as usize]),
+        (LinkKind::Serial, 4) => TxFault::FlushInterrupted(FLUSH_INTR_RUNS[(arg % 5) as usize]),
+        (LinkKind::Serial, _) => TxFault::Zero,
         (LinkKind::Usart, _) => TxFault::WouldBlock(BURSTS[(arg % 3) as usize]),
         (LinkKind::Can, 0) => TxFault::WouldBlock(BURSTS[(arg % 3) as usize]),
         (LinkKind::Can, _) => TxFault::Displaced,
@@ -130,6 +131,7 @@ pub fn run(sim: &Sim, prop: &str, tier: Tier) -> Outcome {
             LinkKind::Serial => {
                 p.short = sim.pick(&[0u32, 30, 90]);
                 p.interrupted = sim.pick(&[0u32, 0, 10, 40]);
+                p.zero = sim.pick(&[0u32, 0, 0, 5, 30]);
                 p.hard = sim.pick(&[0u32, 0, 1, 5]);
                 p.flush_err = sim.pick(&[0u32, 0, 20]);
                 p.flush_intr = sim.pick(&[0u32, 0, 50, 90]);
@@ -168,6 +170,12 @@ pub fn run(sim: &Sim, prop: &str, tier: Tier) -> Outcome {
             data: fill_pattern(3, sim.draw(1000), sim.pick(&[3usize, 20, 9])),
         };
         let _ = crate::link_hostile::clean_packet_items(kind, &p, crate::link_hostile::Tag::Prefix, &mut pre);
+        if pre.len() >= 2 && sim.chance(40) {
+            // only the first frame(s): a partial packet is pending when the sends are made
+            let keep = 1 + sim.draw(pre.len() as u32 - 1) as usize;
+            pre.truncate(keep);
+            sim.probe("sender_holds_partial_incoming_packet");
+        }
         crate::link_hostile::load(sim, &back, &pre);
         back.borrow_mut().policy.hard_err_pm = sim.pick(&[0u32, 100, 300]);
         for _ in 0..(1 + sim.draw(4)) {
@@ -208,14 +216,18 @@ pub fn run(sim: &Sim, prop: &str, tier: Tier) -> Outcome {
         }
         let before = {
             let w = wire.borrow();
-            (w.tx_hard_errors, w.tx_flush_errors, w.tx_displaced, w.tx_interrupted, w.tx_wb_total, w.tx_short)
+            (w.tx_hard_errors, w.tx_flush_errors, w.tx_displaced, w.tx_interrupted + w.tx_zero, w.tx_wb_total, w.tx_short)
         };
         let res = send(sim, "tx", &mut tx, packet);
         let w = wire.borrow();
         let hard_w = w.tx_hard_errors - before.0;
         let hard_f = w.tx_flush_errors - before.1;
         let displaced = w.tx_displaced - before.2;
-        let interrupted = w.tx_interrupted - before.3;
+        // (`Interrupted` and "nothing accepted" answers: the sender may retry or report them)
+        let interrupted = w.tx_interrupted + w.tx_zero - before.3;
+        if w.tx_zero > 0 {
+            sim.probe("fired_write_accepted_nothing");
+        }
         let wbs = w.tx_wb_total - before.4;
         let shorts = w.tx_short - before.5;
         if pi == 0 {
